@@ -547,7 +547,7 @@ func (m *NodeManager) synchronizeBlocks(ctx context.Context, interrupt <-chan in
 	}
 
 	hashes := []bitcoin.Hash32{hash}
-	for {
+	for height > m.config.StartBlockHeight { // never walk back below the start height
 		// Get previous header hash
 		previousHash, _ := m.headers.PreviousHash(hash)
 		if previousHash == nil {
